@@ -359,12 +359,14 @@ def polyhedral_termlist_from_string(str_rep: str) -> List[PolyhedralTerm]:
 
     Raises:
         PolyhedralSyntaxException: constraint syntax error w.r.t the polyhedral term grammar.
-        ValueError: Number of tokens invalid.
+        ValueError: Number of tokens invalid, or division by zero in a constant expression.
     """
     try:
         tokens: pp.ParseResults = expression.parse_string(str_rep, parse_all=True)
     except pp.ParseBaseException as pe:
         raise PolyhedralSyntaxException(pe, str_rep)
+    except ZeroDivisionError:
+        raise ValueError(f"Division by zero in a constant expression of: {str_rep}")
 
     if len(tokens) == 1:
         e = tokens[0]
